@@ -192,7 +192,7 @@ fn oracle(c: &SwitchCase) -> Verdict {
     };
     let label_base = |i: Info| i.label(format!("{:?}", scheme)).label(format!("{:?}", form)).label_if(expect_refusal, "refusal expected").label_if(cur_size > 2, "size>2")
         .label_if(!expect_refusal && tl >= src + 2, "multi-level").label_if(!expect_refusal && tl == src, "target = current level");
-    let (rd, rp) = match timed(&key, Duration::from_secs(20), run) {
+    let (rd, rp) = match timed(&key, Duration::from_secs(60), run) {
         Timed::Hang => return fail_key(format!("{key}/hang"), format!("{:?}/{:?} from level {src} to {:?} did not terminate within the deadline", scheme, form, target)),
         Timed::Panicked(p) => {
             if expect_refusal || either { return Verdict::Pass(label_base(Info::new(true))); }
@@ -271,8 +271,8 @@ pub fn def() -> PropertyDef {
     PropertyDef {
         id: "C05",
         level: "exploration",
-        rule: "exhaustive: N=8, chains of 1..4 (thorough 1..6) data levels x every (source level, target in {every level, key level, unknown id}) x 18 API forms (mod_switch_to_next / mod_switch_to / rescale_to_next / rescale_to / plaintext variants, each in destination, in-place and returning form) x 3 schemes x sizes 2..3; random: generated parameter sets (1..7 primes of 30..60 bits, N=2..16), sizes 2..4, random plaintexts / complex vectors and scales. Every call runs on a worker thread under a 20 s deadline (termination is part of the property). Result level, BGV correction factor (recomputed with u128), CKKS scale (bit-equal for mod switch and single-level rescale, <= 4 ulp over several levels), message (exact for BFV/BGV when the noise bound allows, within bound for CKKS), NTT plaintexts equal to a direct transform at the target level; upward, past-last, unknown-target and non-CKKS rescale requests must panic. non-trivial: target two or more levels below, or size > 2, or BGV, or a plaintext form.",
-        assumptions: vec!["a 20 s deadline stands for non-termination (calls take microseconds)", "noise/error model DESIGN.md §4"],
+        rule: "exhaustive: N=8, chains of 1..4 (thorough 1..6) data levels x every (source level, target in {every level, key level, unknown id}) x 18 API forms (mod_switch_to_next / mod_switch_to / rescale_to_next / rescale_to / plaintext variants, each in destination, in-place and returning form) x 3 schemes x sizes 2..3; random: generated parameter sets (1..7 primes of 30..60 bits, N=2..16), sizes 2..4, random plaintexts / complex vectors and scales. Every call runs on a worker thread under a 60 s deadline (termination is part of the property). Result level, BGV correction factor (recomputed with u128), CKKS scale (bit-equal for mod switch and single-level rescale, <= 4 ulp over several levels), message (exact for BFV/BGV when the noise bound allows, within bound for CKKS), NTT plaintexts equal to a direct transform at the target level; upward, past-last, unknown-target and non-CKKS rescale requests must panic. non-trivial: target two or more levels below, or size > 2, or BGV, or a plaintext form.",
+        assumptions: vec!["a 60 s deadline stands for non-termination (calls take microseconds)", "noise/error model DESIGN.md §4"],
         subs: vec![
             Sub::enumerate("all_pairs_small_chains_timed", exhaustive_cases, oracle),
             Sub::prop("random_switches_timed", 40_000, 600_000, 0.3, switch_case, oracle),
